@@ -819,6 +819,17 @@ def scalar_attr(eng, v, name):
         from . import npmodels
 
         return npmodels.dtype_of_kind(v.kind)
+    if name == "bit_length" and getattr(v, "kind", None) == "int":
+        def _bit_length(e, r, a, k):
+            if a or k:
+                raise Unsupported("int.bit_length with arguments")
+            e.assumptions.add("builtin-model:int.bit_length(): some k with 0 <= k <= |v| and (k == 0 iff v == 0) (the exact power-of-two bounds are not modelled)")
+            out = fresh("int", "bit_length")
+            av = z3.If(r.z >= 0, r.z, -r.z)
+            e.assume(z3.And(out.z >= 0, out.z <= av, (out.z == 0) == (r.z == 0)))
+            return out
+
+        return NativeMethod(_bit_length, v, name)
     raise Unsupported(f"attribute {name} of a scalar")
 
 
